@@ -67,12 +67,6 @@ Proof. apply to_le_length. Qed.
 Lemma from_to_le4 n : n <= u32_max -> from_le (to_le 4 n) = n.
 Proof. intros H. apply from_to_le. change (256 ^ N.of_nat 4) with 4294967296. unfold u32_max in H. lia. Qed.
 
-Lemma to_le_bytes k : forall n, bytes_ok (to_le k n) = true.
-Proof.
-  induction k as [|k IH]; intros n; cbn [to_le]; [reflexivity|].
-  rewrite bytes_ok_cons, IH. pose proof (N.mod_lt n 256). destruct (N.ltb_spec (n mod 256) 256); [reflexivity|lia].
-Qed.
-
 (* ---------- the frame a well-formed message serializes to ---------- *)
 Definition payload_of (m : msg) : list N :=
   match mvalue m with Some v => v | None => none_value end.
@@ -372,4 +366,47 @@ Proof.
     unfold payload_of. rewrite Hmv. destruct (has_value _ _); [lia|].
     unfold none_value, lenN at 1. cbn [length]. lia.
   - destruct Hv as (-> & _). change (lenN []) with 0. lia.
+Qed.
+
+(* ---------- the frame of a well-formed message is a byte string ---------- *)
+Definition desc_bytes (d : desc) : bool := (dkind d <? 256) && disc_ok_fields (dfields d).
+
+Theorem frame_bytes d m : desc_bytes d = true -> wf_with d m = true -> bytes_ok (frame_of d m) = true.
+Proof.
+  intros Hd Hwf. apply andb_prop in Hd as [Hk Hdf].
+  destruct (wf_with_inv _ _ Hwf) as (_ & Hc & Hv & _).
+  unfold frame_of. cbn zeta. rewrite bytes_ok_app, to_le_bytes, bytes_ok_cons, Hk, bytes_ok_app.
+  rewrite (proj1 (proj2 ser_bytes) _ _ Hdf Hc). cbn [andb]. rewrite andb_true_r.
+  unfold value_bytes. destruct (carries d); [|reflexivity].
+  rewrite bytes_ok_app, to_le_bytes. cbn [andb]. unfold payload_of.
+  destruct (has_value _ _).
+  - destruct Hv as (v & -> & _ & Hb). exact Hb.
+  - rewrite Hv. reflexivity.
+Qed.
+
+Theorem ser_bytes_in table m f :
+  forallb desc_bytes table = true -> wf_msg_in table m = true -> ser_msg_in table m = Ok f ->
+  bytes_ok f = true.
+Proof.
+  intros Ht. unfold wf_msg_in, ser_msg_in. destruct (desc_of table (mkind m)) as [d|] eqn:Ed; [|discriminate].
+  intros Hwf Hs. rewrite (ser_with_frame _ _ Hwf) in Hs. apply Ok_inj in Hs. subst f.
+  apply frame_bytes; [|exact Hwf].
+  assert (In d table) as Hin.
+  { clear -Ed. revert Ed. induction table as [|d0 t IH]; cbn [desc_of]; [discriminate|].
+    destruct (dkind d0 =? mkind m); [intros H; injection H as <-; left; reflexivity|intros H; right; apply IH; exact H]. }
+  exact (proj1 (forallb_forall _ _) Ht d Hin).
+Qed.
+
+(* ---------- the per-type entry points agree with the dispatching one ---------- *)
+Theorem parse_as_msg table k f m : parse_as_in table k f = Ok m -> parse_msg_in table f = Ok m.
+Proof.
+  unfold parse_as_in, parse_msg_in. destruct (desc_of table k) as [d|] eqn:Ed; [|discriminate]. intros H.
+  destruct (parse_with_inv _ _ _ _ H) as (H5 & _ & Hk & _).
+  destruct (N.ltb_spec (lenN f) 5); [lia|]. rewrite Hk, (desc_of_kind _ _ _ Ed), Ed. exact H.
+Qed.
+
+Theorem parse_msg_as table f m : parse_msg_in table f = Ok m -> parse_as_in table (nth 4 f 0) f = Ok m.
+Proof.
+  unfold parse_as_in, parse_msg_in. destruct (lenN f <? 5); [discriminate|].
+  destruct (desc_of table (nth 4 f 0)); [trivial|discriminate].
 Qed.
